@@ -209,3 +209,28 @@ Example C14_categorical_nonvacuous :
   guard_b [] [(Some [7%N; 8%N], [Some 1%nat]); (Some [7%N; 9%N], [Some 0%nat])] = false /\
   guard_b [] [(Some [7%N; 8%N], [Some 0%nat]); (Some [7%N; 9%N], [Some 0%nat; Some 1%nat])] = true.
 Proof. vm_compute. repeat split. Qed.
+
+(* ---------------------------------------------------------------------------------------------------------------
+   "files whose schemas differ are rejected when verification is requested", with the comparison itself inside the model (wave 3;
+   Dataset/SchemaEq.v: what `pf._schema != pfs[0]._schema` decides - list equality of the SchemaElement objects under cencoding.dict_eq).
+   The comparison is a decidable relation, proved to be EXACTLY element-wise, attribute-wise equality of the schemas (every attribute path:
+   type, type_length, repetition_type, name, num_children, converted_type, scale, precision, field_id, logicalType and its members;
+   missing = None); tied to the real `!=` on every pair of stream V; the comparison expression is regenerated by paths2coq
+   (gen_verify_is_model / gen_verify_rejects_iff).                                                                         *)
+From Pq Require Import Dataset.SchemaEq Proofs.SchemaEqProofs.
+
+Theorem C14_schema_comparison_exact : forall s1 s2 : list elem, schema_eqb s1 s2 = true <-> schema_equiv s1 s2.
+Proof. exact schema_eqb_iff. Qed.
+Print Assumptions C14_schema_comparison_exact.
+
+Theorem C14_verify_rejects_schema_iff : forall (X : Type) basepath rel (pf0 : pfile (list elem) X) rest,
+  legacy_merge (list elem) schema_eqb X true basepath rel (pf0 :: rest) = MValueError (list elem) X
+  <-> exists pf, In pf rest /\ ~ schema_equiv (pf_schema (list elem) X pf) (pf_schema (list elem) X pf0).
+Proof. exact verify_rejects_schema_iff. Qed.
+Print Assumptions C14_verify_rejects_schema_iff.
+
+(* comparing a rendering that drops an attribute is NOT the comparison (the class of seeded change C14-3): computed witness *)
+Theorem C14_rendering_is_not_equality_refuted :
+  exists s1 s2, map render_name_type s1 = map render_name_type s2 /\ schema_eqb s1 s2 = false.
+Proof. exact rendering_is_not_equality. Qed.
+Print Assumptions C14_rendering_is_not_equality_refuted.
